@@ -1,11 +1,15 @@
-//! pvc-enc: checks C01, C06, C19.  usage: pvc-enc <Cxx> --tier quick|thorough [--replay f] [--only family]
+//! pvc-enc: checks C01, C06, C19 and the encryption-level parts of the cross-cutting properties C10, C11, C12.  usage: pvc-enc <Cxx> --tier quick|thorough [--replay f] [--only family]
 
 pub mod binfhe;
 pub mod c01;
+pub mod c10enc;
+pub mod c11enc;
+pub mod c12enc;
 pub mod c06;
 pub mod c19;
 pub mod enc_util;
 pub mod objs;
+pub mod xcut;
 
 use pvc_engine::{Run, load_replay, parse_args};
 
@@ -21,10 +25,28 @@ fn main() {
             run.finish()
         }};
     }
+    // parts of multi-group properties: a replay descriptor of another group's family is not ours (exit code 2)
+    macro_rules! part {
+        ($level:expr, $run:path, $replay:path) => {{
+            let mut run = Run::new(&args, $level);
+            match &args.replay {
+                Some(p) => {
+                    if !$replay(&mut run, &load_replay(p)) {
+                        std::process::exit(2);
+                    }
+                }
+                None => $run(&mut run),
+            }
+            run.finish()
+        }};
+    }
     let code = match args.property.as_str() {
         "C01" => check!("exploration", c01::run, c01::replay),
         "C06" => check!("exploration", c06::run, c06::replay),
         "C19" => check!("exploration", c19::run, c19::replay),
+        "C10" => part!("exploration", c10enc::run, c10enc::replay),
+        "C11" => part!("model_checking", c11enc::run, c11enc::replay),
+        "C12" => part!("exploration", c12enc::run, c12enc::replay),
         o => {
             eprintln!("pvc-enc: unknown property {o}");
             2
